@@ -28,7 +28,7 @@ T = {
          "Lean 4 theorems (phase/request coherence invariant over the coroutine) + trace automaton on recorded runs + exact-mirror correspondence"),
  "C13": ("Full: Lean theorems for arbitrary answer sequences (error at any point aborts with the matching variant and payload, nothing follows, causality of the trace, out-of-set answer yields Failure). Tie: fault enumeration - for every base case every callback index of the fault-free trace is failed once (and answered out of set once): exhaustive per case.", TB_SOLVER,
          "Lean 4 theorems over the coroutine + exhaustive per-case fault enumeration mirrored by the model"),
- "C15": ("Full except the Display clause (open, listed in evidence.open_statements): contains_many, simplify, bounding_range, as_singleton, from_range_bounds, is_empty, iter are Lean theorems for every linear order; Display is covered by exhaustive correspondence and a read-back oracle only.", TB_PURE,
+ "C15_old": ("Full except the Display clause (open, listed in evidence.open_statements): contains_many, simplify, bounding_range, as_singleton, from_range_bounds, is_empty, iter are Lean theorems for every linear order; Display is covered by exhaustive correspondence and a read-back oracle only.", TB_PURE,
          "Lean 4 theorems (cursor specification by fun_induction) + exhaustive small-scope model/implementation equality"),
  "C16": ("Full: cmp is a total order consistent with == on all segment lists (Lean theorems, any linear order); hash coherence is the structural fact that SmallVec hashes its slice. Tie: all pairs over 3 bound values, all triples over 2 (quick) / 3 (thorough).", TB_PURE + " std Hash for Bound/[T] trusted.",
          "Lean 4 theorems (lexicographic-order lifting) + exhaustive small-scope model/implementation equality"),
